@@ -109,6 +109,10 @@ class BuiltinMixin:
 
     def bi_len(self, args, kw, st, cx, node):
         v = args[0]
+        if isinstance(v, VUnion):
+            v = self.narrow(st, v, TList(Str))
+            if isinstance(v, VUnion):
+                v = self.narrow(st, v, Str)
         if isinstance(v, VStr):
             return [(st, VInt(z3.Length(v.t)))]
         if isinstance(v, (VList, VTuple)):
@@ -198,7 +202,7 @@ class BuiltinMixin:
             return z3.And(z3.Not(v.sort.is_none(v.t)), self.type_test(inner, tq, st))
         if isinstance(v, VUnion):
             tg = PyU.tag(v.t)
-            m = {"builtins.str": 1, "builtins.int": 2, "builtins.bool": 3}
+            m = {"builtins.str": 1, "builtins.int": 2, "builtins.bool": 3, "builtins.list": 5}
             if tq in m:
                 return z3.Or(tg == m[tq], z3.And(tq == "builtins.int", tg == 3)) if tq == "builtins.int" else tg == m[tq]
             if self.repo.classes().get(tq) is not None or tq.startswith("ast.") or tq in self.repo_external_classes():
@@ -543,6 +547,11 @@ class BuiltinMixin:
         "field(obj, 'name'[, 'Class']) raw heap read (no property/method resolution, no absent check)"
         obj = args[0]
         cls = args[2].conc() if len(args) > 2 else obj.cls
+        if len(args) <= 2:
+            nm = args[1].conc()
+            for (c2, f2) in self.reg.class_fields:
+                if f2 == nm and cls is not None and c2 not in self.repo.mro(cls) and self.repo.is_subclass(c2, cls):
+                    raise Unsupported("field(%s): ambiguous -- subclass %s of the static class %s declares its own '%s'; name the class" % (nm, c2, cls, nm))
         o = VRef(obj.t, cls)
         v = self.read_field(st, o, args[1].conc())
         if v is None:
@@ -615,6 +624,12 @@ class BuiltinMixin:
 
     def bi_u_is_obj(self, args, kw, st, cx, node):
         return [(st, VBool(PyU.tag(args[0].t) == 4))]
+
+    def bi_u_is_list(self, args, kw, st, cx, node):
+        return [(st, VBool(PyU.tag(args[0].t) == 5))]
+
+    def bi_u_list(self, args, kw, st, cx, node):
+        return [(st, VList(PyU.l(args[0].t), TList(Str)))]
 
     def bi_u_str(self, args, kw, st, cx, node):
         return [(st, VStr(PyU.s(args[0].t)))]
